@@ -66,10 +66,10 @@ theorem pass_nops (wide : List Nat) (op m : Nat) (h : 1 + m ≤ 65536) :
   · rw [h4]; simp [St.init]
   · rw [h5 0 (by simp [St.init])]; simp [St.init]
 
-/-- a conditional branch at offset 65533 back to instruction 0: the first attempt panics -/
-theorem if_end_panic (pre : List Insn) (s : St) (hs : pass [] pre St.init = .ok s) (hw : s.w.size = 65533)
+/-- a conditional branch at offset 65533 back to instruction 0: the first attempt is an error (136eeb3; was a panic) -/
+theorem if_end_err (pre : List Insn) (s : St) (hs : pass [] pre St.init = .ok s) (hw : s.w.size = 65533)
     (hp : 0 < s.pos.size) (h0 : s.pos[0]? = some 0) (c : Cond) (fuel : Nat) :
-    write (pre ++ [.ifc c 0]) (fuel + 1) [] = .panic := by
+    write (pre ++ [.ifc c 0]) (fuel + 1) [] = .err := by
   rw [write, pass_append, hs]
   obtain ⟨w, pos, unw⟩ := s
   simp only at hw hp h0
@@ -81,10 +81,10 @@ theorem if_end_panic (pre : List Insn) (s : St) (hs : pass [] pre St.init = .ok 
   simp only [pass, step, hle, if_false, encInsn, encIf, hlbl, hnf, Bool.false_eq_true, hgt, if_true]
 
 /-- a conditional branch at offset 65533 to the last label of a 65536-byte attempt: the label is truncated to 0,
-the branch is marked wide, the second attempt panics -/
-theorem if_last_label_panic (pre : List Insn) (s : St) (hs : ∀ wide, pass wide pre St.init = .ok s)
+the branch is marked wide, the second attempt is an error (136eeb3; was a panic) -/
+theorem if_last_label_err (pre : List Insn) (s : St) (hs : ∀ wide, pass wide pre St.init = .ok s)
     (hw : s.w.size = 65533) (hp : s.pos.size = pre.length) (hu : s.unw.toList = []) (c : Cond) (fuel : Nat) :
-    write (pre ++ [.ifc c (pre.length + 1)]) (fuel + 2) [] = .panic := by
+    write (pre ++ [.ifc c (pre.length + 1)]) (fuel + 2) [] = .err := by
   obtain ⟨w, pos, unw⟩ := s
   simp only at hw hp hu
   have hnone : ∀ x, (pos.push x)[pre.length + 1]? = none := by
